@@ -339,7 +339,10 @@ where
 {
     let mut tls_config = rustls_client_config(config)?;
     tls_config.alpn_protocols = vec![b"http/1.1".to_vec()];
+    #[cfg(not(octo_squirrel_verif))]
     let mut endpoint = quinn::Endpoint::client(SocketAddrV4::new(Ipv4Addr::UNSPECIFIED, 0).into())?;
+    #[cfg(octo_squirrel_verif)]
+    let mut endpoint = octo_squirrel::verif::quic::client_endpoint(SocketAddrV4::new(Ipv4Addr::UNSPECIFIED, 0).into())?;
     let quic_client_config = quinn::ClientConfig::new(Arc::new(QuicClientConfig::try_from(tls_config)?));
     endpoint.set_default_client_config(quic_client_config);
     let server_name = if let Some(server_name) = &config.server_name { server_name } else { &host.to_owned() };
